@@ -21,7 +21,7 @@ let init_of m = q_init (List.map z_of_string (split_ne ',' (get m "pre"))) (pars
 
 let show_ev s i ev = match ev with
   | QERetPush -> "r:push"
-  | QELinRetPop v -> "r:pop=" ^ string_of_z v
+  | QELinRetPop v -> let x = string_of_z v in "r:pop=" ^ (if x = "0" then "nil" else x)   (* value 0 = Push(nil) *)
   | QERetEmpty -> "r:pop=nil"
   | QENone -> "done"
   | QEPanic -> "panic:nil"
@@ -59,7 +59,11 @@ let run_steps s sched =
       s := s1) sched;
   (!s, Buffer.contents buf)
 
-let drain s = zlist_to_string (q_abs s)
+(* value 0 stands for a nil value: printed as nil, trailing nils dropped (the harness cannot tell them from "empty") *)
+let drain s =
+  let l = List.map (fun v -> let x = string_of_z v in if x = "0" then "nil" else x) (q_abs s) in
+  let rec trim l = match l with "nil" :: r -> trim r | _ -> l in
+  "[" ^ String.concat "," (List.rev (trim (List.rev l))) ^ "]"
 
 let key_of_state s =
   let b = Buffer.create 64 in
